@@ -2,9 +2,11 @@
 # usage: try_seed.sh <patch.diff> <pid> [<pid>...]  -- apply a seeded change to /repo, run the checks, undo it
 patch="$1"; shift
 cd /repo || exit 2
-if ! git apply --check "$patch" 2>/dev/null; then echo "PATCH DOES NOT APPLY: $patch"; git apply --3way "$patch" || exit 2; else git apply "$patch"; fi
+if [ -n "$(git status --porcelain)" ]; then echo "REPO DIRTY, refusing"; exit 2; fi
+if ! git apply --check "$patch" 2>/dev/null; then echo "PATCH DOES NOT APPLY: $patch"; exit 2; fi
+git apply "$patch"
 git diff --stat | tail -1
 for pid in "$@"; do
   (cd /verif && ./check "$pid" --tier quick 2>&1 | grep -E "VIOLATION|KNOWN-FINDING|done in|problems" ; echo "exit=$?")
 done
-cd /repo && git checkout -- . && git status --short | head -3
+cd /repo && git checkout -f HEAD -- . && git status --short | head -3
